@@ -101,17 +101,30 @@ end Tok
 /-! ## characters -/
 
 def isDigit (c : Char) : Bool := '0' ≤ c && c ≤ '9'
-def isHexDigit (c : Char) : Bool := isDigit c || ('a' ≤ c && c ≤ 'f') || ('A' ≤ c && c ≤ 'F')
 def isUpper (c : Char) : Bool := 'A' ≤ c && c ≤ 'Z'
-def lowerChar (c : Char) : Char := if isUpper c then Char.ofNat (c.toNat + 32) else c
+
+/-- ASCII lower-casing of one character (table form: every case is a literal, which keeps proofs by cases easy) -/
+def lowerChar (c : Char) : Char :=
+  match c with
+  | 'A' => 'a' | 'B' => 'b' | 'C' => 'c' | 'D' => 'd' | 'E' => 'e' | 'F' => 'f' | 'G' => 'g' | 'H' => 'h'
+  | 'I' => 'i' | 'J' => 'j' | 'K' => 'k' | 'L' => 'l' | 'M' => 'm' | 'N' => 'n' | 'O' => 'o' | 'P' => 'p'
+  | 'Q' => 'q' | 'R' => 'r' | 'S' => 's' | 'T' => 't' | 'U' => 'u' | 'V' => 'v' | 'W' => 'w' | 'X' => 'x'
+  | 'Y' => 'y' | 'Z' => 'z' | c => c
+
 /-- ASCII lower-casing (CSS keywords, units, hex digits and function names are ASCII case-insensitive) -/
 def lower (s : List Char) : List Char := s.map lowerChar
 
-def hexDigitVal (c : Char) : Nat :=
-  if isDigit c then c.toNat - 48
-  else if 'a' ≤ c && c ≤ 'f' then c.toNat - 87
-  else if 'A' ≤ c && c ≤ 'F' then c.toNat - 55
-  else 0
+/-- value of a hexadecimal digit, `none` for any other character -/
+def hexDigit? (c : Char) : Option Nat :=
+  match c with
+  | '0' => some 0 | '1' => some 1 | '2' => some 2 | '3' => some 3 | '4' => some 4
+  | '5' => some 5 | '6' => some 6 | '7' => some 7 | '8' => some 8 | '9' => some 9
+  | 'a' => some 10 | 'b' => some 11 | 'c' => some 12 | 'd' => some 13 | 'e' => some 14 | 'f' => some 15
+  | 'A' => some 10 | 'B' => some 11 | 'C' => some 12 | 'D' => some 13 | 'E' => some 14 | 'F' => some 15
+  | _ => none
+
+def isHexDigit (c : Char) : Bool := (hexDigit? c).isSome
+def hexDigitVal (c : Char) : Nat := (hexDigit? c).getD 0
 
 def hexVal (s : List Char) : Nat := s.foldl (fun a c => a * 16 + hexDigitVal c) 0
 
@@ -199,16 +212,17 @@ inductive Num where
   | dimension (q : Rat) (unit : List Char)   -- unit lower-cased: units are ASCII case-insensitive
   deriving DecidableEq, Repr
 
+/-- the numeric meaning of a lexeme `number unit?` as the tokenizer classifies it: no unit = number,
+    `%` = percentage, anything else = dimension -/
+def numOfLexeme (s : List Char) : Option Num :=
+  let (n, u) := spanNumber s
+  if u.isEmpty then (numVal n).map .number
+  else if u == ['%'] then (numVal n).map .percentage
+  else (numVal n).map (fun q => .dimension q (lower u))
+
 def numOf (t : Tok) : Option Num :=
   match t.tt with
-  | .number => (numVal t.data).map .number
-  | .percentage =>
-    match t.data.reverse with
-    | '%' :: r => (numVal r.reverse).map .percentage
-    | _ => none
-  | .dimension =>
-    let (n, u) := spanNumber t.data
-    if u.isEmpty then none else (numVal n).map (fun q => .dimension q (lower u))
+  | .number | .percentage | .dimension => numOfLexeme t.data
   | _ => none
 
 /-! ## zero lengths
@@ -221,6 +235,16 @@ def lengthUnits : List (List Char) :=
   ["em", "ex", "ch", "rem", "vw", "vh", "vmin", "vmax", "cm", "mm", "q", "in", "pt", "pc", "px"].map String.toList
 
 def angleUnits : List (List Char) := ["deg", "grad", "rad", "turn"].map String.toList
+
+/-- every unit of CSS Values and Units 4 (lengths incl. viewport/container/font-relative variants, angles,
+    times, frequencies, resolutions, flex) -/
+def cssUnits : List (List Char) :=
+  ["em", "rem", "ex", "rex", "cap", "rcap", "ch", "rch", "ic", "ric", "lh", "rlh",
+   "vw", "svw", "lvw", "dvw", "vh", "svh", "lvh", "dvh", "vi", "svi", "lvi", "dvi", "vb", "svb", "lvb", "dvb",
+   "vmin", "svmin", "lvmin", "dvmin", "vmax", "svmax", "lvmax", "dvmax",
+   "cqw", "cqh", "cqi", "cqb", "cqmin", "cqmax",
+   "cm", "mm", "q", "in", "pt", "pc", "px",
+   "deg", "grad", "rad", "turn", "s", "ms", "hz", "khz", "dpi", "dpcm", "dppx", "x", "fr"].map String.toList
 
 def Num.isZero : Num → Bool
   | .number q => q == 0
@@ -377,7 +401,7 @@ def hslTie (t : Tok) : Bool :=
 /-- the sRGB colour and alpha a token denotes, if it is a colour in one of the notations above -/
 def rgba (t : Tok) : Option Color :=
   match t.tt with
-  | .hash => match t.data with | '#' :: ds => hexColor ds | _ => none
+  | .hash => hexColor (t.data.drop 1)      -- the lexeme of a hash token starts with `#`
   | .ident => namedColor t.data
   | .function => funcColor t
   | _ => none
